@@ -12,7 +12,8 @@ package config
 // anything of the first, and a configuration handed out earlier must not change
 // when a later one is loaded.  One case = 2-4 different loads; it is executed
 // in a FRESH child process (the test binary re-executed), so that a case is
-// self-contained and replayable.  The reference for every load of the sequence
+// self-contained and replayable; all its loads use ONE file path, rewritten before
+// each load (as on a reload).  The reference for every load of the sequence
 // is the same (file, environment) loaded ALONE in its own fresh process (twice:
 // the reference itself has to be stable).
 //
